@@ -80,10 +80,10 @@ def bn_configs():
 def bn_batches(rank):
     C = 2
     def mk(N, salt):
-        shape = (N, C) + {2: (), 3: (2,), 4: (2, 1)}[rank]
+        shape = (N, C) + {2: (), 3: (3,), 4: (2, 2)}[rank]
         n = int(np.prod(shape))
         return (np.sin(np.arange(n) * 1.7 + salt) * 2.0 + 0.3 * salt).reshape(shape)
-    return {"A": mk(2, 1.0), "B": mk(3, 2.0)}
+    return {"A": mk(2, 1.0), "B": mk(3, 2.0), "C": mk(1, 3.0)}     # C: one sample (used for rank >= 3, where a channel still has > 1 value)
 
 def run_bn(cfg, hist):
     sg = harness.load(); t = harness.torch()
@@ -201,7 +201,8 @@ def run(tier, seed):
             cases.append({"kind": "dropout", "p": p, "history": list(h)})
     cfgs = bn_configs()
     for c in cfgs:
-        for h in itertools.product("TEAB", repeat=bd):
+        ev = "TEAB" if c["rank"] == 2 else "TEABC"
+        for h in itertools.product(ev, repeat=bd if c["rank"] == 2 else bd - 1):
             cases.append({"kind": "batchnorm", "cfg": c, "history": list(h)})
         for h in itertools.product("TEAB", repeat=bd - 1):          # float32 layers: values, and dtype of outputs and buffers
             cases.append({"kind": "batchnorm", "cfg": dict(c, dtype="float32"), "history": list(h)})
@@ -219,7 +220,7 @@ def run(tier, seed):
            "rule": f"Dropout p in {{0,.3,.5,1}} x ALL {11 ** dd} histories of length {dd} over {{train, eval, forward with each of the 8 "
                    f"keep/drop answer vectors, forward at the boundary u=p}}; BatchNorm: {len(cfgs)} configurations (momentum {{.1,.5,1,0,None}} x "
                    f"affine x track_running_stats x input rank 2/3/4) x ALL {4 ** bd} histories of length {bd} over {{train, eval, forward(A: 2 "
-                   "samples), forward(B: 3 samples)}} in lock-step with torch.nn.BatchNorm1d/2d (float64; float32 layers one level shallower, "
+                   "samples), forward(B: 3 samples), for rank >= 3 also forward(C: 1 sample) with histories one shorter}} in lock-step with torch.nn.BatchNorm1d/2d (float64; float32 layers one level shallower, "
                    "incl. dtype of outputs and buffers): output, running_mean, "
                    "running_var, num_batches_tracked after every event; after the history every forward is back-propagated (delayed backward) "
                    "and its input gradient compared with the closed form / torch autograd; states = (configuration, history prefix) pairs"}
